@@ -304,7 +304,7 @@ theorem bmca_rearm (i i' : Inst) (order : List Nat) (obs : Obs) (hnd : order.Nod
         simp only [Except.ok.injEq, Prod.mk.injEq] at hw
         obtain ⟨hi', hobs⟩ := hw
         obtain ⟨_, a2⟩ := bmcaApply_rearm (findBest cands) lbs order hnd ports1 i.st [] [] ports2 s2 ev2 pend2 hap
-        obtain ⟨g1, g2⟩ := C08.bmcaAge_spec step order ports2 ports3 hag
+        obtain ⟨g1, g2⟩ := bmcaAge_spec step order ports2 ports3 hag
         intro j p hp
         obtain ⟨p1, hp1, _, _, r3, _⟩ := t2 j p hp
         obtain ⟨p2, hp2, b1, b2⟩ := a2 j p1 hp1
